@@ -13,26 +13,26 @@ type OpType uint8
 
 // Operand types.
 const (
-	TNone  OpType = iota
-	TB32          // 32 raw bits / integer
-	TI32          // signed 32-bit integer (boundary values matter)
-	TU32          // unsigned 32-bit integer
-	TSh           // shift count / bit index (small numbers, 31/32/63/64 matter)
-	TBF           // packed bit-field descriptor (offset in low bits, width in bits 16..22)
-	TF32          // FP32
-	TF16          // FP16 in the low half
-	TB16          // 16-bit integer in the low half
-	TB64          // 64 raw bits / integer (register pair)
-	TF64          // FP64 (register pair)
-	TMask         // 64-bit lane mask (SGPR pair / VCC)
-	TB96          // 3 dwords
-	TB128         // 4 dwords
-	TAddr64       // 64-bit address (register pair)
-	TAddr32       // 32-bit LDS address or 32-bit offset
-	TU24          // 24-bit unsigned in a dword
-	TI24          // 24-bit signed in a dword
-	TClass        // v_cmp_class mask
-	TPkF32        // two FP32 values in a register pair
+	TNone   OpType = iota
+	TB32           // 32 raw bits / integer
+	TI32           // signed 32-bit integer (boundary values matter)
+	TU32           // unsigned 32-bit integer
+	TSh            // shift count / bit index (small numbers, 31/32/63/64 matter)
+	TBF            // packed bit-field descriptor (offset in low bits, width in bits 16..22)
+	TF32           // FP32
+	TF16           // FP16 in the low half
+	TB16           // 16-bit integer in the low half
+	TB64           // 64 raw bits / integer (register pair)
+	TF64           // FP64 (register pair)
+	TMask          // 64-bit lane mask (SGPR pair / VCC)
+	TB96           // 3 dwords
+	TB128          // 4 dwords
+	TAddr64        // 64-bit address (register pair)
+	TAddr32        // 32-bit LDS address or 32-bit offset
+	TU24           // 24-bit unsigned in a dword
+	TI24           // 24-bit signed in a dword
+	TClass         // v_cmp_class mask
+	TPkF32         // two FP32 values in a register pair
 )
 
 // Dwords returns the number of 32-bit registers an operand of the type spans.
@@ -153,7 +153,7 @@ var (
 type archSet int
 
 const (
-	onlyGCN3 archSet = 1
+	onlyGCN3  archSet = 1
 	onlyCDNA3 archSet = 2
 	both      archSet = 3
 )
